@@ -66,10 +66,10 @@ theorem NodeFacts.mono {ts : List Token} {g g' : SpanKey → Option Span} {env e
     obtain ⟨t, sp, h1, h2, h3⟩ := h
     exact ⟨t, sp, h1, by rw [hg]; exact h2, h3⟩
   | pi id d =>
-    obtain ⟨tg, c, sp, h1, h2, h3, h4, h5⟩ := h
+    obtain ⟨tg, c, sp, h1, h2, h3, h4, h5, h6⟩ := h
     obtain ⟨z, hz⟩ := he.nm
     exact ⟨tg, c, sp, h1, by rw [hg]; exact h2, by rw [hz]; exact getElem?_append_of_some h3, h4,
-      fun x hx => by rw [hg]; exact h5 x hx⟩
+      fun x hx => by rw [hg]; exact h5 x hx, h6⟩
   | document => trivial
   | «attribute» n v => trivial
   | «namespace» p n => trivial
